@@ -35,7 +35,9 @@ CONSTANTS Keys,       \* set of digests (equal length, >= 4 bytes); bucket = dig
           PriLimit, IdxLimit,
           MaxCalls,   \* bound on the history length (state space)
           WithGC,     \* TRUE: the two collectors' cycles are among the calls
-          LowUses     \* low-use thresholds of primary GC to explore (101 = never relocate)
+          LowUses,    \* low-use thresholds of primary GC to explore (101 = never relocate)
+          Deadlines   \* time limits of a primary GC cycle to explore: the cycle's context reports DeadlineExceeded from its
+                      \* (d+1)-th check on (0 = no limit) - the deterministic stand-in for a time limit that the harness uses
 
 VARIABLES kv, bk, inext, ifiles, ifirst, ilen,
           pnext, pfiles, pfirst, plen, recFile, recPos,
@@ -255,31 +257,52 @@ Relocate(acc, recs, fnum) ==      \* recs = the file after this pass's merge and
       a1   == IF last = 0 THEN acc ELSE RelocOne(acc, recs[last], fnum, offs[last])
   IN IF prev = 0 THEN a1 ELSE RelocOne(a1, recs[prev], fnum, offs[prev])
 
-\* one complete cycle over the non-current files that are not in `visited`
-RECURSIVE ReapFiles(_, _, _, _, _, _)
-ReapFiles(files, first, i, vis, lu, acc) ==        \* i = index into files of the file being looked at
+\* one cycle over the non-current files that are not in `visited`.  The cycle checks its context once after every file it
+\* processed (not for files it skips); r = number of checks that still succeed (-1 = no limit): the check after the
+\* (r+1)-th processed file fails and the cycle stops there, keeping what it did
+RECURSIVE ReapFiles(_, _, _, _, _, _, _)
+ReapFiles(files, first, i, vis, lu, acc, r) ==        \* i = index into files of the file being looked at
   IF i >= Len(files) THEN [files |-> files, first |-> first, vis |-> vis, acc |-> acc]
   ELSE LET fnum == first + i - 1 IN
-       IF fnum \in vis THEN ReapFiles(files, first, i + 1, vis, lu, acc)
+       IF fnum \in vis THEN ReapFiles(files, first, i + 1, vis, lu, acc, r)
        ELSE LET recs2 == Reap(files[i])
                 dead  == recs2 = <<>>
-            IN IF dead /\ i = 1
-               THEN ReapFiles(Tail(files), first + 1, 1, vis \cup {fnum}, lu, acc)            \* header advanced, file removed
-               ELSE ReapFiles([files EXCEPT ![i] = recs2], first, i + 1, vis \cup {fnum}, lu,
-                              IF ~dead /\ LowUse(files[i], lu) THEN Relocate(acc, recs2, fnum) ELSE acc)
+                r2    == IF r > 0 THEN r - 1 ELSE r
+                one   == IF dead /\ i = 1
+                         THEN [files |-> Tail(files), first |-> first + 1, i |-> 1, vis |-> vis \cup {fnum}, acc |-> acc]      \* header advanced, file removed
+                         ELSE [files |-> [files EXCEPT ![i] = recs2], first |-> first, i |-> i + 1, vis |-> vis \cup {fnum},
+                               acc |-> IF ~dead /\ LowUse(files[i], lu) THEN Relocate(acc, recs2, fnum) ELSE acc]
+            IN IF r = 0 THEN [files |-> one.files, first |-> one.first, vis |-> one.vis, acc |-> one.acc]
+               ELSE ReapFiles(one.files, one.first, one.i, one.vis, lu, one.acc, r2)
 
-PriGC(lu) ==
-  /\ Call([op |-> "prigc", lowUse |-> lu])
+\* A cycle with time limit d.  Reading the .gc file costs one check per entry plus one (only when the file is not empty).  The
+\* entries are applied as one batch when the last one has been read: if a check fails before that, nothing has been
+\* marked; if the LAST check fails, everything has been marked but the set of affected files is dropped with the error
+\* (those files stay in `visited`).  In both cases the .gc file stays for the next cycle.
+PriGCd(lu, d) ==
+  /\ Call([op |-> "prigc", lowUse |-> lu, deadline |-> d])
   /\ LET ho     == HandOver
+         e      == Len(ho.gc)
+         stop1  == d > 0 /\ e > 0 /\ d < e
+         stopM  == d > 0 /\ e > 0 /\ d = e
+         r      == IF d = 0 THEN -1 ELSE IF e > 0 THEN d - (e + 1) ELSE d
          marked == MarkAll(pfiles, ho.gc)
          vis1   == visited \ Affected(pfiles, marked)
-         rp     == ReapFiles(marked, pfirst, 1, vis1, lu, [pnext |-> pnext, recFile |-> recFile, recPos |-> recPos, inext |-> inext, flpool |-> flpool])
-     IN /\ pfiles' = rp.files /\ pfirst' = rp.first /\ visited' = rp.vis
-        /\ flfile' = ho.fl /\ flgc' = [has |-> FALSE, l |-> <<>>]
-        /\ plen' = plen
-        /\ pnext' = rp.acc.pnext /\ recFile' = rp.acc.recFile /\ recPos' = rp.acc.recPos
-        /\ inext' = rp.acc.inext /\ flpool' = rp.acc.flpool
+         rp     == ReapFiles(marked, pfirst, 1, vis1, lu, [pnext |-> pnext, recFile |-> recFile, recPos |-> recPos, inext |-> inext, flpool |-> flpool], r)
+     IN IF stop1
+        THEN /\ flfile' = ho.fl /\ flgc' = [has |-> TRUE, l |-> ho.gc]
+             /\ UNCHANGED <<pfiles, pfirst, visited, plen, pnext, recFile, recPos, inext, flpool>>
+        ELSE IF stopM
+        THEN /\ flfile' = ho.fl /\ flgc' = [has |-> TRUE, l |-> ho.gc]
+             /\ pfiles' = marked
+             /\ UNCHANGED <<pfirst, visited, plen, pnext, recFile, recPos, inext, flpool>>
+        ELSE /\ pfiles' = rp.files /\ pfirst' = rp.first /\ visited' = rp.vis
+             /\ flfile' = ho.fl /\ flgc' = [has |-> FALSE, l |-> <<>>]
+             /\ plen' = plen
+             /\ pnext' = rp.acc.pnext /\ recFile' = rp.acc.recFile /\ recPos' = rp.acc.recPos
+             /\ inext' = rp.acc.inext /\ flpool' = rp.acc.flpool
   /\ UNCHANGED <<kv, bk, ifiles, ifirst, ilen>>
+PriGC(lu) == PriGCd(lu, 0)
 
 \* ---------------------------------------------------------------- index GC (one complete cycle)
 \* a record is busy iff its bucket points exactly at it
@@ -320,7 +343,7 @@ IdxGC(scanFree) ==
   /\ UNCHANGED <<kv, bk, inext, ilen, pnext, pfiles, pfirst, plen, recFile, recPos, flpool, flfile, flgc, visited>>
 
 Next == \/ (\E k \in Keys, v \in Vals : Put(k, v)) \/ (\E k \in Keys : Remove(k)) \/ Flush
-        \/ (WithGC /\ ((\E lu \in LowUses : PriGC(lu)) \/ \E sf \in BOOLEAN : IdxGC(sf)))
+        \/ (WithGC /\ ((\E lu \in LowUses, d \in Deadlines : PriGCd(lu, d)) \/ \E sf \in BOOLEAN : IdxGC(sf)))
 Spec == Init /\ [][Next]_vars
 
 \* ---------------------------------------------------------------- properties
